@@ -224,3 +224,15 @@ let show_bobs_list (l : bobs list) : string =
      | BO x -> show_sobs b x
      | BPeeked v -> Buffer.add_string b "(peek "; show_val b v; Buffer.add_char b ')') l;
   Buffer.contents b
+
+(* ---- group_by ---- *)
+let show_gev b = function
+  | Announce k -> Buffer.add_string b "(a "; show_val b k; Buffer.add_char b ')'
+  | GItem (k, v) -> Buffer.add_string b "(g "; show_val b k; Buffer.add_string b " (n "; show_val b v; Buffer.add_string b "))"
+  | GTerm (k, e) -> Buffer.add_string b "(g "; show_val b k; Buffer.add_char b ' '; show_ev b e; Buffer.add_char b ')'
+  | OuterTerm e -> Buffer.add_string b "(o "; show_ev b e; Buffer.add_char b ')'
+
+let show_gevs (l : gev list) : string =
+  let b = Buffer.create 64 in
+  List.iteri (fun i g -> if i > 0 then Buffer.add_char b ' '; show_gev b g) l;
+  Buffer.contents b
